@@ -389,6 +389,20 @@ Theorem tcp_answer_on_the_wire :
 Proof. exact NetStream.tcp_answer_on_the_wire. Qed.
 Print Assumptions tcp_answer_on_the_wire.
 
+Theorem udp_answer_question_on_the_wire :
+  forall tab q qwire where_ timeout af o sevs evs now i r wire t from rest,
+  udp (lookup tab) q qwire where_ timeout af o sevs evs now = (i, Ok (r, wire, t, from, rest)) ->
+  wire_question_section wire = Some (m_question r) /\ genuine q r.
+Proof. exact NetUdp.udp_answer_question_on_the_wire. Qed.
+Print Assumptions udp_answer_question_on_the_wire.
+
+Theorem tcp_answer_question_on_the_wire :
+  forall tab q qwire timeout it wevs stream revs now m wire t sent sk,
+  tcp (lookup tab) q qwire timeout it wevs stream revs now = Ok (m, wire, t, sent, sk) ->
+  wire_question_section wire = Some (m_question m) /\ genuine q m.
+Proof. exact NetStream.tcp_answer_question_on_the_wire. Qed.
+Print Assumptions tcp_answer_question_on_the_wire.
+
 (* ---------------- non-vacuity ---------------- *)
 
 Module Ex.
@@ -528,3 +542,17 @@ Example ex_fallback :
                     (Ex.junk ++ [UData [4] Ex.server]) [] [0;1;1] [RBlock (Some 1)] 100
   = Ok (true, (Ex.good, [1], 1)).
 Proof. vm_compute. reflexivity. Qed.
+
+(* the octet-level parser check: a real 29-octet reply (id 0x1234, QR|RD|RA, question www.ex. IN A,
+   compressed owner in the answer) is accepted by `lookup` only with the description that matches it *)
+Example ex_lookup_checked :
+  let w := [18;52;129;128;0;1;0;0;0;0;0;0; 3;119;119;119;2;101;120;0; 0;1;0;1] in
+  let good := {| p_short := false; p_msg := {| m_id := 4660; m_flags := 33152; m_ednsflags := 0;
+                                               m_question := [Ex.qe Ex.nm] |};
+                 p_err := None; p_trailing := false |} in
+  let wrong := {| p_short := false; p_msg := {| m_id := 4660; m_flags := 33152; m_ednsflags := 0;
+                                                m_question := [Ex.qe Ex.nmU] |};
+                  p_err := None; p_trailing := false |} in
+  p_err (lookup [(w, good)] w) = None /\ p_err (lookup [(w, wrong)] w) = Some niOther
+  /\ wire_question_section w = Some [Ex.qe Ex.nm].
+Proof. vm_compute. auto. Qed.
